@@ -4,20 +4,20 @@ import json, subprocess, sys
 
 PBT = "property-based testing: proptest-seeded choice sequences decoded into cases, custom shrinker, explicit oracle"
 CHECKS = {
-    "C01": dict(engine="E3-cluster", technique=PBT + " (fault-injected in-process cluster of real nodes vs LWW reference model, message-fate scripts)",
-        text="60k (quick) / 3M (thorough) generated operation histories on 2-4 real nodes with generated loss, duplication, delay and reordering of every direct, batch and repair message; after healing and three repair intervals every node's documents are compared with the LWW model of the operations as written by their origins.",
+    "C01": dict(engine="E2-actor+E3-cluster", technique=PBT + " (fault-injected in-process cluster of real nodes vs LWW reference model, message-fate scripts)",
+        text="150k (quick) / 8M (thorough) histories on real keyspace actors where the harness owns every delivery (each direct and batched message lost, delayed so that it overtakes others, or duplicated; repair exchanges with their two halves interleaved with other traffic) and the history ends with exactly ONE round of pairwise exchanges in a generated order, plus 60k / 3M histories on 2-4 real nodes with the real distributor and poller over a lossy in-process network; every node's documents are compared with the LWW model.",
         note="RPC transport replaced by an in-process function call (hook H-rpc), membership injected (H-members), clocks follow paused tokio time plus skew (H-clock). Document fetches are never failed, only delayed/duplicated (the poller's std::time watchdog cannot be advanced by a paused-time simulation).", ref="3 C01"),
     "C06": dict(engine="E3-cluster", technique=PBT + " (consistency-level promise checked against per-node storage right after the call, generated non-acknowledging replicas)",
         text="100k (quick) / 3M (thorough) generated layouts x issuer x level x operation x replica behaviours on real nodes; the promise of the level is checked against storage immediately after the call returns, the error counts against the acknowledgements that came back, and later replication after healing.",
         note="Same transport/membership/clock hooks as C01; storage failures are injected only outside repair cycles.", ref="3 C06"),
     "C13": dict(engine="E3-cluster", technique="exhaustive enumeration of add/remove sequences (bounded) + random longer sequences, model = set of registered names",
-        text="All 46656 add/remove sequences of length 6 over three services (279936 of length 7 in the thorough tier) plus 20k random sequences up to length 12, each probed after every step with real clients against a real server state.",
+        text="All 46656 add/remove sequences of length 6 over three services (279936 of length 7 in the thorough tier), 20k random sequences up to length 12, and 20k random sequences over six services with 17 interleaving handler keys, each probed after every step with real clients against a real server state.",
         note="Server reached through the in-process transport (H-rpc): routing, handler lookup and status encoding are the real code, the socket layer is not exercised.", ref="3 C13"),
     "C16": dict(engine="E3-cluster", technique=PBT + " (model-based: per-delta exactness + sum of deltas vs final snapshot; known finding excluded by signature)",
         text="20k (quick) / 1M (thorough) generated snapshot sequences, subscription moments and read patterns on one real node.",
         note="Snapshots are injected where chitchat would publish them (H-members). The recorded finding 'watch-latest-only' is excluded by its exact signature (every observed delta correct AND the subscriber missed a delta); any wrong delta is still a violation.", ref="3 C16"),
     "C19": dict(engine="E3-cluster", technique=PBT + " (differential: state received through the real service+client vs independently built reference set, probe grid of further operations)",
-        text="6000 (quick) / 300k (thorough) sender states up to 20000 entries fetched with the real get_state path, compared on live ids, tombstones, stamps, will_apply probes and one further operation; 3000 reply frames with every bit flip / truncation refused.",
+        text="6000 (quick) / 300k (thorough) sender states up to 20000 entries fetched with the real get_state path at the end and after generated build stages (ops, purges, bulk loads), compared on live ids, tombstones, stamps, will_apply probes and one further operation; 3000 reply frames with every bit flip / truncation refused.",
         note="The reference set is built by applying the same operations directly to an OrSWotSet of the harness (trusts the CRDT, which C03-C05 cover).", ref="3 C19"),
     "C11": dict(engine="E6-clock", technique=PBT + " (generated task scripts with barriers; schedule owned on a current-thread runtime, sampled on 4 workers)",
         text="60k generated multi-task scripts on a current-thread runtime where the interleaving is a function of the generated yields, plus 500 x 8 runs on a 4-worker runtime; uniqueness, per-task monotonicity and register->get causality (program order and barrier chains) are checked on every run.",
@@ -38,25 +38,25 @@ CHECKS = {
         text="2M generated arrival orders per quick run (200M thorough) plus exhaustive enumeration of all arrival sequences of <=3 ops in a small scope, each compared step by step with an independent last-writer-wins model.",
         note="Trusts the harness's LWW model and field-wise Stamp ordering; stamps are drawn >= 1 h after the datacake epoch and inside a 3000 s window (the property's precondition).", ref="3 C04"),
     "C05": dict(engine="E1-pure", technique=PBT + " (exactness oracle for diff + metamorphic 'apply the diff, nothing is left')",
-        text="2M (quick) / 100M (thorough) generated replica pairs incl. purged ones; the diff is compared with an independently computed expectation and then applied the way the keyspace actor applies it.",
+        text="2M (quick) / 100M (thorough) generated replica pairs incl. purged ones and, one case in five, replicas with arbitrary gaps on an exact 1 h grid (stamps exactly on a cut-off); the diff is compared with an independently computed expectation and, inside the repair clause's precondition, applied the way the keyspace actor applies it.",
         note="The purge cut-off of a replica is observed through a will_apply probe on an unused key (the statement's 'purge cut-off for that origin').", ref="3 C05"),
     "C07": dict(engine="E2-actor", technique=PBT + " (crash-point injection incl. inside a request, rebuilt state vs storage)",
         text="100k (quick) / 5M (thorough) histories with a generated stop point between or inside requests (storage write done, set not updated), one or two restarts; the rebuilt set is compared with storage and with what was acknowledged.",
         note="Process death is modelled by fencing the old storage handle; durability of the bundled backends themselves is C17's subject.", ref="3 C07"),
-    "C08": dict(engine="E1-pure", technique=PBT + " (invariants around purge_old_deletes on generated hour-scale histories)",
-        text="300k (quick) / 20M (thorough) single-replica histories spanning hours with purges at generated points: live set unchanged, only tombstones removed, stale operations from the deleting node refused ever after.",
-        note="Local facts only so far; the cluster-level comparison (purging vs non-purging run) is added by the E2 part when present in the evidence file.", ref="3 C08"),
+    "C08": dict(engine="E1-pure+E2-actor", technique=PBT + " (invariants around purge_old_deletes on generated hour-scale histories)",
+        text="300k (quick) / 20M (thorough) single-replica histories spanning hours with purges at generated points (live set unchanged, only tombstones returned and removed, never a live id, stale operations from the deleting node refused ever after), plus 100k / 5M cluster timelines on real keyspace actors (timely deliveries by construction, direct and repair paths, clock skew) run twice, with and without purge calls: identical documents on every replica and equal to the LWW model; the store counts any attempt to purge a live id.",
+        note="Timeliness (delay + skew < forgiveness period) holds by construction of the timelines; the hourly purge task of a full node is not used, purge calls are generated instead.", ref="3 C08"),
     "C09": dict(engine="E1-pure", technique=PBT + " (stateful send/recv sequences with an injected wall clock, invariant after every call)",
         text="400k (quick) / 30M (thorough) sequences of up to 60 calls with stalls, backward jumps and drift-limit boundary values of the wall clock and of remote stamps.",
         note="Needs hook H-clock (injectable wall clock). The drift limit 4100 s is taken from the crate's documented constant.", ref="3 C09"),
-    "C10": dict(engine="E1-pure", technique=PBT + " + exhaustive boundary grid (round-trips, order isomorphism, parser robustness)",
+    "C10": dict(engine="E1-pure", technique=PBT + " + exhaustive boundary grid (round-trips, order isomorphism, parser robustness) + coverage-guided libFuzzer campaign in the thorough tier",
         text="1M generated stamp pairs, the exhaustive 5600-value boundary grid (31M ordered pairs), a regression corpus and 2M generated strings per quick run.",
         note="from_u64 on words whose fractional byte is >= 250 is outside the claim.", ref="3 C10"),
-    "C12": dict(engine="E1-pure+E4", technique=PBT + " (round-trip + exhaustive single-bit-flip / truncation / crafted-short-frame mutation of every generated frame)",
+    "C12": dict(engine="E1-pure+E4", technique=PBT + " (round-trip + exhaustive single-bit-flip / truncation / crafted-short-frame mutation of every generated frame; end-to-end scripts over simulated TCP; libFuzzer+ASan campaign in the thorough tier)",
         text="6000 generated messages per quick run (300k thorough), each expanded into all single-bit flips (frames <= 4 KiB), all truncations and crafted short frames with correct checksums (about 60M mutated frames per quick run), plus 6000 end-to-end exchange scripts over hyper/h2 on simulated TCP (values up to 300 KB, handler errors, raw invalid frames in front of a typed handler).",
         note="Frame level (DataView::using); an independent CRC32 decides whether a damaged frame must be refused.", ref="3 C12"),
-    "C15": dict(engine="E1-pure", technique=PBT + " (validity predicate in both directions over selection histories on shared cursors)",
-        text="300k (quick) / 30M (thorough) layouts x selection histories through the public NodeSelector trait.",
+    "C15": dict(engine="E1-pure+E3-cluster", technique=PBT + " (validity predicate in both directions over selection histories on shared cursors)",
+        text="300k (quick) / 30M (thorough) layouts x selection histories through the public NodeSelector trait, plus 20k / 1M histories on one real node where membership snapshots (joins, leaves, whole data centres leaving, same-count replacements and moves) alternate with DatacakeNode::select_nodes.",
         note="Needs hook H-rng for reproducible data-centre choice; the oracle holds for every RNG outcome.", ref="3 C15"),
     "C18": dict(engine="E2-actor", technique=PBT + " (generated yield schedules on a current-thread runtime + sampled OS schedules on 4 workers)",
         text="20k generated schedules on a current-thread runtime (interleaving fully determined by generated yields) and 300 x 10 runs on a 4-worker runtime.",
